@@ -68,6 +68,7 @@ func (r *Run) execFrom(fr *Frame, st *State, b *ssa.BasicBlock, start int, prev 
 			outs := r.handleCall(fr, st, x, &x.Call)
 			for _, o := range outs {
 				r.recordCall(o.st, x, &x.Call, o.rets)
+				r.ghostEvent(fr, o.st, "call", strings.TrimPrefix(r.eng.calleeName(&x.Call), "dyn:"), "")
 			}
 			if len(outs) == 1 && outs[0].st == st {
 				if len(outs[0].rets) > 0 {
